@@ -317,6 +317,17 @@ def json_agreement(prog, rep):
                 if why is not None:
                     rep.check(why == "", "JSON", "schemas/event.json", "members of data", "every JSON value admitted", f"the schema constrains the members of `data`: {why}; data is free-form JSON (the setter stores any dict), so the JSON form of some event no longer validates", "aw_core/schemas/event.json")
                     continue
+            if k == "duration" and extra and set(extra) <= {"minimum", "maximum", "exclusiveMinimum", "exclusiveMaximum", "multipleOf", "enum", "const"}:
+                # the model emits total_seconds() of whatever timedelta the setter stored; if the setter applies no range test,
+                # every real number of seconds (negative ones, fractions of a microsecond grid) is emitted for some event
+                ds_ = prog.func("Event.duration#setter") if "Event.duration#setter" in getattr(prog, "by_short", {}) else None
+                if ds_ is None:
+                    cands = [f_ for f_ in prog.funcs.values() if f_.cls is not None and f_.cls.name == "Event" and f_.name == "duration" and len(f_.params) == 2]
+                    ds_ = cands[0] if cands else None
+                ranged = ds_ is None or any(isinstance(x, ast.Compare) and any(isinstance(o, (ast.Lt, ast.LtE, ast.Gt, ast.GtE)) for o in x.ops) for x in ast.walk(ds_.node)) or any(isinstance(x, ast.Call) and norm(x.func) in ("max", "min", "abs") for x in ast.walk(ds_.node))
+                if not ranged:
+                    rep.violation("JSON", "schemas/event.json", f"key {k}", f"the schema constrains `duration` with {({x: decl[x] for x in extra})} but the model stores any timedelta it is given (the setter applies no range test) and emits its total_seconds(): an event with a duration outside the constraint (e.g. a negative one) has a JSON form that no longer validates against the published schema", "aw_core/schemas/event.json", expected="type number, no range", found=str({x: decl[x] for x in extra}))
+                    continue
             if extra:
                 rep.undecided("JSON", "schemas/event.json", f"key {k}", f"the schema constrains `{k}` with {extra}, which this analysis does not relate to the values the model emits", "aw_core/schemas/event.json")
     except Exception as e:
@@ -370,6 +381,7 @@ VARIANTS = [
     ("B init bypasses the setter", M, "            self.timestamp = _timestamp_parse(timestamp)", '            self["timestamp"] = timestamp', "ONE-WRITER"),
     ("B numbers stored as milliseconds", M, 'self["duration"] = timedelta(seconds=duration)', 'self["duration"] = timedelta(milliseconds=duration)', "DURATION"),
     ("B other types accepted silently", M, '            raise TypeError(f"Couldn\'t parse duration of invalid type {type(duration)}")', '            self["duration"] = timedelta(0)', "DURATION"),
+    ("B schema gives duration a minimum the model does not enforce", "aw_core/schemas/event.json", '            "type": "number"\n\t\t},\n\t\t"data"', '            "type": "number",\n            "minimum": 0\n\t\t},\n\t\t"data"', "JSON"),
     ("B schema restricts id to integers (the model allows strings)", "aw_core/schemas/event.json", '\t"properties": {\n', '\t"properties": {\n\t\t"id": {"type": ["integer", "null"]},\n', "JSON"),
     ("OK schema documents id with every type the model allows", "aw_core/schemas/event.json", '\t"properties": {\n', '\t"properties": {\n\t\t"id": {"type": ["integer", "string", "null"]},\n', "ok"),
     ("B to_json_str serialises the raw dict (datetime via default=str)", M, "        data = self.to_json_dict()\n        return json.dumps(data)", "        return json.dumps(dict(self), default=str)", "JSON"),
